@@ -47,14 +47,17 @@ CHECKS = {
                mc(2, [5, 6], DEL, SWAP + SETS, Modes='ModesDeferred', BUSets='BUOn'),
                # delete, re-add on the freed halffaces, collect: the collection must not disturb the new cell
                mc(3, [1, 5], ['delete_cell', 'delete_face', 'add_cell_closed', 'add_face_v'], GC + ['enable_deferred', 'delete_cell'],
-                  Modes='ModesDeferred', BUSets='BUTwo', Tree=True)],
+                  Modes='ModesDeferred', BUSets='BUTwo', Tree=True),
+               # clear() and rebuild on the same object: nothing of the old mesh may survive in the caches
+               mc(4, [1, 5], ['clear', 'add_n_vertices'], ['add_face_v', 'add_edge'],
+                  Modes='ModesDefault', BUSets='BUOn')],
         thorough=[mc(3, [2, 5, 6], DEL + GC, DEL + GC + BUT + ['add_edge', 'add_face_v', 'add_cell_closed']),
                   mc(2, [4], DEL, DEL + GC + BUT + ['add_edge', 'add_cell_closed'], Modes='ModesTwo'),
                   mc(2, SMALL + EXTRA, DEL, SWAP + SETS, Modes='ModesTwo'),
                   mc(3, [2], ['delete_cell', 'delete_face', 'add_cell_closed', 'add_face_v'], GC + ['enable_deferred', 'delete_cell'],
                      Modes='ModesDeferred', BUSets='BUTwo'),
                   mc(4, [1, 5], ['delete_cell', 'delete_face', 'add_cell_closed'], GC + ['enable_deferred', 'delete_cell'], Modes='ModesDeferred')],
-        sim=dict(ops=DEL + GC + ADDS + BUT + SWAP + MODE + SETS + ['enable_bu', 'reorder', 'reserve']),
+        sim=dict(ops=DEL + GC + ADDS + ADDS + BUT + SWAP + MODE + SETS + ['enable_bu', 'reorder', 'reserve', 'clear']),
     ),
     'C02': dict(
         props=['C02'], opts='props=1',
